@@ -376,7 +376,7 @@ func (m *machine) genPoolOp(t *rapid.T, idx int, kind string) fop {
 		default:
 			amt = m.amount(t, "stake", 100)
 		}
-		return fop{K: "stake", Who: who, Pool: idx, Amt: amt.String()}
+		return fop{K: "stake", Who: who, Pool: idx, Amt: amt.String(), Spell: drawSpell(t)}
 	case "unstake":
 		var who int
 		if len(staked) > 0 && rapid.IntRange(0, 9).Draw(t, "stakedFarmer") < 9 {
@@ -406,7 +406,7 @@ func (m *machine) genPoolOp(t *rapid.T, idx int, kind string) fop {
 		default:
 			amt = big.NewInt(int64(rapid.IntRange(1, 20).Draw(t, "tiny")))
 		}
-		return fop{K: "unstake", Who: who, Pool: idx, Amt: amt.String()}
+		return fop{K: "unstake", Who: who, Pool: idx, Amt: amt.String(), Spell: drawSpell(t)}
 	case "harvest":
 		var who int
 		if len(staked) > 0 && rapid.IntRange(0, 9).Draw(t, "stakedFarmer") < 9 {
@@ -414,7 +414,7 @@ func (m *machine) genPoolOp(t *rapid.T, idx int, kind string) fop {
 		} else {
 			who = rapid.SampledFrom(all).Draw(t, "farmer")
 		}
-		return fop{K: "harvest", Who: who, Pool: idx}
+		return fop{K: "harvest", Who: who, Pool: idx, Spell: drawSpell(t)}
 	case "destroy":
 		return fop{K: "destroy", Who: creatorUser(p), Pool: idx}
 	default: // adjust
@@ -508,3 +508,11 @@ func TestReplay(t *testing.T) { pbt.ReplayMain(t) }
 func TestC05(t *testing.T) { pbt.RunMachine(t, "C05", "c05", c05Rule, newC05) }
 
 func TestC06(t *testing.T) { pbt.RunMachine(t, "C06", "c06", c06Rule, newC06) }
+
+// drawSpell: one operation in twelve writes the pool id in another spelling that validation accepts.
+func drawSpell(t *rapid.T) int {
+	if rapid.IntRange(0, 1<<20).Draw(t, "spell")%12 == 11 {
+		return rapid.IntRange(1, 2).Draw(t, "spelling")
+	}
+	return 0
+}
